@@ -247,21 +247,21 @@ func (r *Reporter) Finish(c *Ctx, verifDir, tier string, seed int, wall float64,
 		floors[rule] = map[string]int{"instances": counts[rule], "floor": r.floors[rule]}
 	}
 	cov := map[string]interface{}{
-		"explanation":         explanation,
-		"not_decided":         notDecided,
-		"evaluations":         nonInfo,
-		"distinct_nontrivial": nonInfo,
-		"obligations":         nonInfo,
-		"discharged":          byStatus[string(Discharged)],
-		"rule":                "one obligation per (rule, construct) with construct built from qualified names; every obligation counted here inspected at least one path, call site, field access or decision-table row of live code in /repo's current tree; info lines are not counted",
-		"samples":             samples,
-		"by_status":           byStatus,
-		"rules":               floors,
-		"info":                infos,
+		"explanation":            explanation,
+		"not_decided":            notDecided,
+		"evaluations":            nonInfo,
+		"distinct_nontrivial":    nonInfo,
+		"obligations":            nonInfo,
+		"discharged":             byStatus[string(Discharged)],
+		"rule":                   "one obligation per (rule, construct) with construct built from qualified names; every obligation counted here inspected at least one path, call site, field access or decision-table row of live code in /repo's current tree; info lines are not counted",
+		"samples":                samples,
+		"by_status":              byStatus,
+		"rules":                  floors,
+		"info":                   infos,
 		"known_findings_matched": knownMatched,
-		"notes":               r.Notes,
-		"exhaustive":          false,
-		"checker_cmd":         fmt.Sprintf("./check %s %s", r.Property, tier),
+		"notes":                  r.Notes,
+		"exhaustive":             false,
+		"checker_cmd":            fmt.Sprintf("./check %s %s", r.Property, tier),
 	}
 	if c != nil {
 		cov["packages_analysed"] = c.NumPkgs
